@@ -509,6 +509,69 @@ def unsetElem (g : Grows) (r : Runner) (h : Heap) (name : Bytes) (sub : Sub) : O
     if sub == .int 0 then delVar r h name else some h
   | _ => some h
 
+/-! ### Assigning expansions `${name[idx]=word}` / `${name[idx]:=word}` (expand/param.go) -/
+
+/-- `Variable.indexedVal(i)`. -/
+def indexedVal (h : Heap) (v : Var) (i : Nat) : Option Bytes :=
+  if !v.indexes.isNil then
+    if (searchIdx (cells h.ints v.indexes) i).2 then
+      sliceGet? h.strs v.list (searchIdx (cells h.ints v.indexes) i).1
+    else none
+  else sliceGet? h.strs v.list i
+
+def optPair (o : Option Bytes) : Bytes Ã— Bool :=
+  match o with
+  | some s => (s, true)
+  | none => ([], false)
+
+/-- `Config.varInd(vr, idx)` for an absent or integer-literal subscript: the string and whether it
+    is set; `none` = the expansion fails ("negative array index", unsupported subscript). -/
+def varInd (h : Heap) (vr : Var) (idx : Option Int) : Option (Bytes Ã— Bool) :=
+  match idx with
+  | none =>
+    match vr.kind with
+    | .indexed => some (optPair (indexedVal h vr 0))
+    | .associative => some (optPair (vr.map.bind fun id => alookup (mapOf h.maps id) (intText 0)))
+    | _ => some (varString h vr, vr.set)
+  | some k =>
+    match vr.kind with
+    | .string => if k = 0 then some (vr.str, vr.set) else some ([], false)
+    | .indexed =>
+      if resolveIdx h vr.list vr.indexes k < 0 then none
+      else some (optPair (indexedVal h vr (resolveIdx h vr.list vr.indexes k).toNat))
+    | .associative =>
+      if k < 0 then none   -- not a *syntax.Word
+      else some (optPair (vr.map.bind fun id => alookup (mapOf h.maps id) (intText k)))
+    | _ => some ([], false)
+
+/-- The list `assignElem` sets the element on: `slices.Clone(vr.List)`, `slices.Clone(vr.Indexes)`,
+    replaced by `[]string{vr.Str}` for a scalar. -/
+def elemBase (g : Grows) (h : Heap) (vr : Var) : Heap Ã— Slice Ã— Slice :=
+  if vr.kind == .string then
+    ({ (cloneBoth g h vr.list vr.indexes).1 with
+         strs := (sliceMake (cloneBoth g h vr.list vr.indexes).1.strs [vr.str] 1).1 },
+     (sliceMake (cloneBoth g h vr.list vr.indexes).1.strs [vr.str] 1).2, Slice.nil)
+  else cloneBoth g h vr.list vr.indexes
+
+/-- `Config.assignElem(name, vr, idx, val)` writing through `expandEnv.Set` = `Runner.setVar`.
+    An error of the expansion leaves the state as it is. -/
+def assignElem (g : Grows) (r : Runner) (h : Heap) (name : Bytes) (vr : Var) (idx : Option Int) (val : Bytes) :
+    Option Heap :=
+  if idx.isNone && vr.kind != .indexed && vr.kind != .associative then
+    setVar r h name { set := true, kind := .string, str := val }
+  else if vr.kind == .associative then
+    if idx.getD 0 < 0 then some h
+    else
+      setVar r { h with maps := updMap (cloneOrMake h.maps vr.map).1 (cloneOrMake h.maps vr.map).2
+                                  fun m => aset m (intText (idx.getD 0)) val }
+        name { vr with set := true, map := some (cloneOrMake h.maps vr.map).2 }
+  else if resolveIdx h vr.list vr.indexes (idx.getD 0) < 0 then some h
+  else
+    match setIndexedElem g (elemBase g h vr).1 (elemBase g h vr).2.1 (elemBase g h vr).2.2
+        (resolveIdx h vr.list vr.indexes (idx.getD 0)).toNat val with
+    | none => none
+    | some x => setVar r x.1 name { vr with set := true, kind := .indexed, str := [], list := x.2.1, indexes := x.2.2 }
+
 /-! ### Operations -/
 
 inductive DeclVariant | declare | Â«localÂ» | Â«exportÂ» | Â«readonlyÂ»
@@ -525,6 +588,10 @@ inductive Op
   | decl (v : DeclVariant) (x r g : Bool) (vt : ValType) (name : Bytes) (naked append : Bool) (rhs : Rhs)
   /-- `name=rhs cmd` / `name+=rhs cmd`: set (exported) for the command, restored afterwards. -/
   | inline (name : Bytes) (append : Bool) (rhs : Rhs)
+  /-- `: "${name[idx]=val}"` (`colon = false`) / `: "${name[idx]:=val}"` (`colon = true`). -/
+  | paramAssign (name : Bytes) (idx : Option Int) (colon : Bool) (val : Bytes)
+  /-- A command that fails without writing, e.g. `((a[1]=2))` (unsupported assignment target). -/
+  | nop
   /-- `unset [-v|-f] name` / `unset 'name[sub]'`. -/
   | unset (mode : UnsetMode) (name : Bytes) (sub : Option Sub)
   /-- `read -a name` with the given fields. -/
@@ -619,6 +686,17 @@ def step (fx : Bool) (g : Grows) (h : Heap) (r : Runner) : Op â†’ Option (Heap Ã
         match setVar r h1 name (lookupVar r h name) with
         | none => none
         | some h2 => some (h2, r)
+  | .paramAssign name idx colon val =>
+    match varInd h (lookupVar r h name) idx with
+    | none => some (h, r)
+    | some sv =>
+      -- AssignUnset: only when unset; both forms: only when the string is empty
+      if (colon || !sv.2) && sv.1.isEmpty then
+        match assignElem g r h name (lookupVar r h name) idx val with
+        | none => none
+        | some h' => some (h', r)
+      else some (h, r)
+  | .nop => some (h, r)
   | .unset mode name sub =>
     match sub with
     | some s =>
